@@ -5,15 +5,20 @@ inputs untouched, ownership = result in fresh storage) are postconditions / fram
 operation (C05 sort_tree, C06 to_subtree / get_subtree_impl / propagate_removal, C07 redirect_tree / cat_tree, C12 AffineTransform /
 TranslateOrigin, C16 smoother / resampler).  They are re-verified here through DEPENDS, so a change that makes one of those
 operations write into its input or hand out shared storage fails under C03 as well.
-What C03 owns is the composition: `Transforms.__call__` (any number of member transforms) and `Identity`.
+What C03 owns is the composition: `Transforms.__call__` (any number of member transforms) and `Identity`, the two
+non-affine geometry transforms `Normalizer` and `RadiusReseter`, and the REFINEMENT obligations that connect the abstract
+single-step contract of the pipeline theorem to the real operations (section "step contract" below).
 """
 import z3
 
+from contracts.common import col, nof, sym_tree
+from pyvc import ext_C03
 from pyvc.spec import Registry
-from pyvc.values import Obj, Opaque, PList, Sym, fresh, fresh_name, to_z3, zint
+from pyvc.values import NArr, Obj, Opaque, PList, SArr, Sym, fresh, fresh_name, to_z3, zint
 
 DEPENDS = ["C05", "C06", "C07", "C12", "C16"]
 BASE = "swcgeom/transforms/base.py"
+GEO = "swcgeom/transforms/geometry.py"
 I, B = z3.IntSort(), z3.BoolSort()
 WF = z3.Function("WFtree", I, B)       # ghost: the tree behind a handle is well formed
 born = z3.Function("born", I, I)       # ghost: allocation time of the storage behind a handle
@@ -33,9 +38,12 @@ def register(R: Registry):
         S.assume(z3.And(WF(x0.z), born(x0.z) <= 0))
 
         def step(E, recv, args, kwargs):
-            """ASSUMED contract of a member transform = the single-step clauses proved for the library's operations:
-            on a well-formed tree it returns a well-formed tree that is either its argument itself (Identity) or lives in storage
-            allocated during the call; nothing that existed before the call is written"""
+            """single-step contract of a member transform: on a well-formed tree it returns a well-formed tree that is either its
+            argument itself (Identity) or lives in storage allocated during the call; nothing that existed before the call is written.
+            It is ASSUMED here for an arbitrary member and DISCHARGED for the library's operations by the obligations
+            `<operation>/post/step/...` (section "step contract, concretely" below: WFtree(h) is WF of the tree behind h, born(h) > now is
+            "tree object, ndata dict and every column allocated during the call", stamp unchanged is "every input tree as at entry");
+            a member that is itself a Transforms satisfies it by this very theorem (and Transforms.__init__ splices such members)"""
             (x,) = args
             xz = to_z3(x, "int")
             now = to_z3(G.fields["now"], "int")
@@ -45,8 +53,10 @@ def register(R: Registry):
             E.assume(z3.And(WF(y.z), z3.Or(y.z == xz, born(y.z) > now)))
             E.assume(z3.ForAll([h], z3.Implies(born(h) <= now, stamp(h, now + 1) == stamp(h, now))))
             G.fields["now"] = Sym(now + 1, "int")
-            E.assumptions.add("assumed step contract of a member transform (what C05/C06/C07/C12/C16 prove per operation): result well formed, "
-                              "argument itself or freshly allocated, nothing older written")
+            E.assumptions.add("step contract of an abstract member transform (result well formed, argument itself or freshly allocated, nothing older "
+                              "written): assumed for an arbitrary member; discharged per library operation by the obligations <operation>/post/step/* "
+                              "(Identity, Translate/Scale/Rotate/RotateX/RotateY/RotateZ, AffineTransform, TranslateOrigin, Normalizer, RadiusReseter, "
+                              "sort_tree, to_subtree, redirect_tree, cat_tree); the reading of WFtree/born/stamp as predicates of real trees is by definition, not mechanised")
             return y
 
         ts = PList.fresh("ref", name="transforms")
@@ -76,6 +86,371 @@ def register(R: Registry):
           loops={0: dict(invariant=[("well-formed-fresh-or-input-and-input-untouched", inv)], modifies=["G"])},
           notes="pipelines of ANY length; member transforms are abstract and satisfy the single-step contract")
 
+    def init_setup(shape):
+        """members: m0..; shape "nested" puts a Transforms([m1, m2]) between m0 and m3"""
+        def f(S):
+            from swcgeom.transforms.base import Identity, Transforms
+
+            m = [S.obj(Identity) for _ in range(4)]
+            inner = S.obj(Transforms, transforms=PList([m[1], m[2]]))
+            args = {"empty": (), "flat": (m[0], m[1], m[2]), "nested": (m[0], inner, m[3]), "only-nested": (inner,)}[shape]
+            want = {"empty": [], "flat": [m[0], m[1], m[2]], "nested": m, "only-nested": [m[1], m[2]]}[shape]
+            return dict(self=S.obj(Transforms), transforms=args, __ghost__=dict(want=want, inner=inner))
+
+        return f
+
+    def flattened(E, v, o):
+        got, want = v["self"].fields.get("transforms"), E.spec_extra["want"]
+        inner = E.spec_extra["inner"]
+        return isinstance(got, PList) and got.items is not None and len(got.items) == len(want) and all(a is b for a, b in zip(got.items, want)) \
+            and got is not inner.fields["transforms"] and len(inner.fields["transforms"].items) == 2
+
+    R.add(f"{BASE}:Transforms.__init__", prop="C03", variants={k: init_setup(k) for k in ("empty", "flat", "nested", "only-nested")},
+          ensures=[("members-in-order-with-nested-pipelines-spliced-in-place-into-a-list-of-its-own", flattened)],
+          notes="a pipeline given as a member contributes its members (one level: its own list was flattened when it was built)")
+
     R.add(f"{BASE}:Identity.__call__", prop="C03", pure_inline=True,
-          setup=lambda S: dict(self=S.obj(__import__("swcgeom.transforms.base", fromlist=["x"]).Identity), x=S.int("x")),
-          ensures=[("returns-its-argument-itself", lambda E, v, o: to_z3(v["result"], "int") == to_z3(o["x"], "int"))])
+          setup=lambda S: dict(self=S.obj(__import__("swcgeom.transforms.base", fromlist=["x"]).Identity), x=sym_tree(S, "x")),
+          ensures=[("returns-its-argument-itself", lambda E, v, o: v["result"] is v["x"])] + step_clauses(may_return_input=True))
+
+
+# =========================================================================== step contract, concretely
+# The pipeline theorem above is stated over abstract handles (WFtree / born / stamp).  For a REAL operation op(x, ...) -> y
+# the three conjuncts of the single-step contract read:
+#   step/result-is-well-formed                              WF(x) [and WF of a second operand] ==> WF(y)
+#   step/result-is-the-input-itself-or-freshly-allocated    y is x, or the tree object y, its ndata dict and every column array were
+#                                                           allocated during the call (born(y) > now)
+#   step/nothing-older-written                              every input tree is, at the exit, what it was at the entry (stamp unchanged)
+# WF(t) is the property's definition: one length n >= 1 for all columns, id[i] = i, pid[0] = -1, 0 <= pid[i] < n for i > 0, and every
+# node reaches the root.  "Reaches the root" is carried by a ghost DEPTH witness d (d(0) = 0, d(i) = d(pid[i]) + 1 > 0), the same
+# definition as contracts/common.py: assume_wf and the preconditions of C05 / C06 / C07: in a hypothesis d is a fresh uninterpreted
+# function (exists-elimination), in a conclusion the clause supplies the witness (the input's own when ids and parents are kept, the
+# input's read through the relabelling otherwise).
+def _sel(a, i):
+    """a[i] for a symbolic-length (SArr) or a concrete-shape (NArr) column"""
+    if isinstance(a, SArr):
+        return z3.Select(a.arr, i)
+    items = a.items
+    z = to_z3(items[-1], a.kind)
+    for j in range(len(items) - 2, -1, -1):
+        z = z3.If(i == j, to_z3(items[j], a.kind), z)
+    return z
+
+
+def _alen(a):
+    return a.nz() if isinstance(a, SArr) else z3.IntVal(a.shape[0])
+
+
+def _forall(n, f):
+    """forall i in [0, n): f(i) -- a conjunction when n is a Python int (concrete-shape trees)"""
+    if isinstance(n, int):
+        return z3.And(*[f(z3.IntVal(i)) for i in range(n)]) if n else z3.BoolVal(True)
+    i = z3.Int(fresh_name("i"))
+    return z3.ForAll([i], z3.Implies(z3.And(i >= 0, i < n), f(i)))
+
+
+WF_PARTS = ("one-length-n>=1-for-all-columns", "ids-are-positions", "root-has-no-parent", "every-other-parent-is-a-node", "every-node-reaches-the-root")
+
+
+def wf_parts(t, d, root=None):
+    """WF(t) as its five conjuncts (dict part name -> formula).  Symbolic size: `d` (callable z3 Int -> z3 Int) is the depth witness of
+    "every node reaches the root" (d(root) = 0, d(i) = d(pid[i]) + 1 > 0 otherwise; the definition of contracts/common.py: assume_wf).
+    Concrete size (NArr columns): reaching the root is the finite formula "n - 1 parent steps arrive at the root", `d` is not used.
+    `root` (z3 Int) replaces node 0 as the root position (re-rooting with sorting switched off)."""
+    nd = t.fields["ndata"].items
+    ids, pid = nd["id"], nd["pid"]
+    r = z3.IntVal(0) if root is None else root
+    if isinstance(ids, NArr):
+        n = ids.shape[0]
+        if n < 1 or any(a.shape != (n,) for a in nd.values()):
+            return {p: z3.BoolVal(False) for p in WF_PARTS}
+        nz = z3.IntVal(n)
+        pz = [to_z3(x, "int") for x in pid.items]
+        reach = [z3.IntVal(a) == r for a in range(n)]
+        for _ in range(n - 1):
+            reach = [z3.Or(reach[a], *[z3.And(pz[a] == b, reach[b]) for b in range(n) if b != a]) for a in range(n)]
+        reaches = z3.And(*reach)
+    else:
+        n = nz = ids.nz()
+        reaches = z3.And(d(r) == 0, _forall(n, lambda i: z3.Implies(i != r, z3.And(d(i) == d(_sel(pid, i)) + 1, d(i) > 0))))
+    return {
+        "one-length-n>=1-for-all-columns": z3.And(nz >= 1, r >= 0, r < nz, *[_alen(nd[c]) == nz for c in nd]),
+        "ids-are-positions": _forall(n, lambda i: _sel(ids, i) == i),
+        "root-has-no-parent": _sel(pid, r) == -1,
+        "every-other-parent-is-a-node": _forall(n, lambda i: z3.Implies(i != r, z3.And(_sel(pid, i) >= 0, _sel(pid, i) < nz))),
+        "every-node-reaches-the-root": reaches,
+    }
+
+
+def wf(t, d, root=None):
+    return z3.And(*wf_parts(t, d, root).values())
+
+
+def fresh_depth(tag="d"):
+    return z3.Function(fresh_name("wfdepth_" + tag), I, I)
+
+
+def tree_is_fresh(E, y):
+    nd = y.fields["ndata"]
+    cols = [a.root() if isinstance(a, NArr) else a for a in nd.items.values()]
+    return y.uid not in E.entry_uids and nd.uid not in E.entry_uids and all(a.uid not in E.entry_uids for a in cols) \
+        and len({a.uid for a in cols}) == len(cols)
+
+
+def object_unchanged(a, b):
+    """the fields of a transform object (matrix, centre, parameters) are what they were at the entry"""
+    if set(a.fields) != set(b.fields):
+        return False
+    out = []
+    for k, y in b.fields.items():
+        x = a.fields[k]
+        if isinstance(y, NArr):
+            if not isinstance(x, NArr) or x.shape != y.shape:
+                return False
+            out.extend(to_z3(p, y.kind) == to_z3(q, y.kind) for p, q in zip(x.items, y.items))
+        elif isinstance(y, Sym) or isinstance(x, Sym):
+            if not (isinstance(x, Sym) or isinstance(x, (int, float))) or not (isinstance(y, Sym) or isinstance(y, (int, float))):
+                return False
+            out.append(to_z3(x) == to_z3(y))
+        elif isinstance(y, (Obj, PList, SArr)):
+            if getattr(x, "uid", None) != y.uid:
+                return False
+        elif x is not y and x != y:
+            return False
+    return z3.And(*out) if out else True
+
+
+def step_clauses(inputs=("x",), witness=None, root=None, may_return_input=False, admissible=None, result=None):
+    """the step clauses for a carrier whose tree parameters are `inputs` (the first one is THE input of the pipeline step).
+    witness(E, v, o, ds) -> callable: depth witness of the result, given the witnesses `ds` of the inputs (default: the first input's own,
+    right for operations that keep ids and parents);  root(E, v, o): root position of the result when it is not node 0;
+    admissible(E, v, o): the operation's argument domain (added to the hypothesis of the well-formedness clauses);
+    result(E, v, o): the tree the clauses speak about when it is not `result` itself.
+    The well-formedness conjunct is split into its five parts (one obligation each, sharing one hypothesis)."""
+    from contracts.C12 import tree_unchanged
+
+    def res_of(E, v, o):
+        return result(E, v, o) if result is not None else v["result"]
+
+    def live(E, v, nm):
+        """the input object itself at the exit (a carrier may rebind its parameter, e.g. `tree = tree.copy()`)"""
+        return E.spec_extra.get("step_inputs", {}).get(nm, v[nm])
+
+    def hypothesis(E, v, o):
+        key = ("step-hyp",)
+        if key not in E.ghost:
+            ds = [fresh_depth(nm) for nm in inputs]  # one witness per input and path: the parts below share the hypothesis
+            hyp = [wf(o[nm], d) for nm, d in zip(inputs, ds)]
+            if admissible is not None:
+                hyp.append(admissible(E, v, o))
+            E.ghost[key] = (ds, hyp)
+            # guard: the hypothesis (WF of the inputs, admissible arguments) must be satisfiable on this path together with everything
+            # proved so far -- otherwise the implications below would hold vacuously
+            from pyvc.engine import Oblig
+
+            if not any(z3.is_false(h) for h in E.pc):  # (a path that already carries a failed obligation `False` is reported by that obligation)
+                E.covers.append(Oblig(f"{E.prop}/{E.cur_contract.short}/cover/step-hypothesis-reachable", list(E.pc) + hyp, z3.BoolVal(False), "cover", getattr(E, "variant", "")))
+        return E.ghost[key]
+
+    def well_formed(part):
+        def f(E, v, o):
+            y = res_of(E, v, o)
+            if not isinstance(y, Obj) or "ndata" not in y.fields:
+                return False
+            ds, hyp = hypothesis(E, v, o)
+            w = witness(E, v, o, ds) if witness is not None else ds[0]
+            if w is None:
+                return False
+            return z3.Implies(z3.And(*hyp), wf_parts(y, w, root(E, v, o) if root is not None else None)[part])
+
+        return f
+
+    def fresh_or_input(E, v, o):
+        y = res_of(E, v, o)
+        if may_return_input and y is live(E, v, inputs[0]):
+            return True
+        return isinstance(y, Obj) and tree_is_fresh(E, y)
+
+    def untouched(E, v, o):
+        out = [tree_unchanged(live(E, v, nm), o[nm]) for nm in inputs]
+        if isinstance(o.get("self"), Obj) and isinstance(v.get("self"), Obj):
+            out.append(object_unchanged(v["self"], o["self"]))  # the transform object is older than the call as well
+        if any(x is False for x in out):
+            return False
+        out = [x for x in out if x is not True]
+        return z3.And(*out) if out else True
+
+    return [(f"step/result-is-well-formed/{part}", well_formed(part)) for part in WF_PARTS] + \
+           [("step/nothing-older-written", untouched), ("step/result-is-the-input-itself-or-freshly-allocated", fresh_or_input)]
+
+
+def with_step_inputs(setup, inputs):
+    """wrap a contract's setup: the input tree OBJECTS are also handed to the clauses as ghost `step_inputs`"""
+    def g(S):
+        d = setup(S)
+        gh = dict(d.get("__ghost__") or {})
+        gh["step_inputs"] = {nm: d[nm] for nm in inputs}
+        d["__ghost__"] = gh
+        return d
+
+    return g
+
+
+# =========================================================================== Normalizer / RadiusReseter
+XYZR = ("x", "y", "z", "r")
+
+
+def register_geometry(R):
+    import swcgeom.transforms.geometry as G
+    from contracts.C12 import tree_unchanged
+
+    def kept(cols):
+        """the columns `cols` of the result are elementwise the input's (in fresh storage, see the step clause), same key set"""
+        def f(E, v, o):
+            x0, y = o["x"], v["result"]
+            if list(y.fields["ndata"].items) != list(x0.fields["ndata"].items):
+                return False
+            i = z3.Int(fresh_name("i"))
+            n = nof(x0)
+            return z3.And(*[col(y, c).nz() == n for c in y.fields["ndata"].items],
+                          z3.ForAll([i], z3.Implies(z3.And(i >= 0, i < n), z3.And(*[z3.Select(col(y, c).arr, i) == z3.Select(col(x0, c).arr, i) for c in cols]))))
+
+        return f
+
+    # ---------------------------------------------------------------- Normalizer.__call__
+    # what the code does, per column c of x, y, z, r:  c'[i] = (c[i] - min(c)) / max(c)   (max of the ORIGINAL column, not of the shifted
+    # one: the result spans [0, (max - min) / max], which is the unit interval only when min(c) = 0).  A column with max(c) = 0 gives inf / nan (no exception).
+    def norm_setup(S):
+        x = sym_tree(S, "x")
+        g = {}
+        for c in XYZR:
+            mn, mx = S.real(f"min_{c}"), S.real(f"max_{c}")
+            S.assume(ext_C03.extreme_facts(col(x, c).arr, nof(x), mn.z, z3.Int(fresh_name("wmin")), True))   # ghost: THE minimum / maximum of the
+            S.assume(ext_C03.extreme_facts(col(x, c).arr, nof(x), mx.z, z3.Int(fresh_name("wmax")), False))  # non-empty column (exists, unique)
+            g[c] = (mn, mx)
+        return dict(self=S.obj(G.Normalizer), x=x, __ghost__=dict(ext=g))
+
+    def normalised(E, v, o):
+        """per column c of x, y, z, r whose maximum is not 0 (numpy divides by zero silently: inf / nan entries, no exception)"""
+        x0, y = o["x"], v["result"]
+        i = z3.Int(fresh_name("i"))
+        out = []
+        for c, (mn, mx) in E.spec_extra["ext"].items():
+            q, p = z3.Select(col(y, c).arr, i), z3.Select(col(x0, c).arr, i)
+            out.append(z3.Implies(mx.z != 0, z3.And(q == (p - mn.z) / mx.z, q * mx.z == p - mn.z)))
+        return z3.ForAll([i], z3.Implies(z3.And(i >= 0, i < nof(x0)), z3.And(*out)))
+
+    R.add(f"{GEO}:Normalizer.__call__", prop="C03", setup=norm_setup,
+          ensures=[("x-y-z-r-shifted-by-their-minimum-and-divided-by-their-maximum", normalised), ("ids-types-parents-kept", kept(("id", "type", "pid")))]
+          + step_clauses(),
+          options=dict(models=ext_C03.MODELS),
+          notes="the step clauses need no admissibility condition: a column with maximum 0 gives inf / nan coordinates, structure and storage are as always")
+
+    # ---------------------------------------------------------------- RadiusReseter.__call__
+    def rr_setup(S):
+        return dict(self=S.obj(G.RadiusReseter, r=S.real("r_new")), x=sym_tree(S, "x"))
+
+    def radii_reset(E, v, o):
+        y = v["result"]
+        i = z3.Int(fresh_name("i"))
+        return z3.ForAll([i], z3.Implies(z3.And(i >= 0, i < nof(o["x"])), z3.Select(col(y, "r").arr, i) == to_z3(o["self"].fields["r"], "real")))
+
+    R.add(f"{GEO}:RadiusReseter.__call__", prop="C03", setup=rr_setup,
+          ensures=[("every-radius-is-the-requested-one", radii_reset), ("everything-else-kept", kept(("id", "type", "x", "y", "z", "pid"))),
+                   "transform-object-untouched :: self.r == old(self.r)"] + step_clauses())
+
+
+_reg_pipeline = register
+
+
+def register(R):  # noqa: F811
+    _reg_pipeline(R)
+    register_geometry(R)
+
+
+# =========================================================================== refinement: proved postconditions ==> step contract
+# For every library operation that is under contract in the modules C03 DEPENDS on, the three step clauses are APPENDED to that
+# contract's postconditions (second registration pass, `finalize`, run by vcheck when every module has registered; only while C03 is
+# being checked).  They are therefore proved on the REAL body, on the same paths and AFTER the operation's own postconditions, which
+# are hypotheses by then (an obligation that has been emitted is assumed for the rest of the path): each
+# `<operation>/post/step/...` obligation is "the operation's proved postconditions ==> the step contract of Transforms.__call__".
+def finalize(R, prop):
+    if prop != "C03":
+        return
+    UT = "swcgeom/core/tree_utils.py"
+
+    def base(key, owner):
+        for c in R.alts.get(key, []):
+            if c.prop == owner and not c.trusted:
+                return c
+        raise KeyError(f"C03 step refinement: no {owner} contract for {key}")
+
+    def extend(key, owner, **kw):
+        c = base(key, owner)
+        if any(isinstance(cl, tuple) and cl[0].startswith("step/") for cl in c.ensures):
+            return
+        inputs = kw.get("inputs", ("x",))
+        if c.variants:
+            c.variants = {k: with_step_inputs(f, inputs) for k, f in c.variants.items()}
+        else:
+            c.setup = with_step_inputs(c.setup, inputs)
+        c.ensures.extend(step_clauses(**kw))
+
+    # ---- geometry (C12): ids and parents are never written, the input's depth witness serves the result
+    for nm in ("AffineTransform.__call__", "AffineTransform.apply", "TranslateOrigin.transform", "TranslateOrigin.__call__"):
+        extend(f"{GEO}:{nm}", "C12")
+    # Translate / Scale / Rotate / RotateX / RotateY / RotateZ: the classmethod X.transform(x, ...) = X(...)(x) runs the constructor and the
+    # inherited AffineTransform.__call__ on the real chain; an instance built beforehand is covered by AffineTransform.__call__ above, whose
+    # precondition `matrix-is-affine` is the postcondition of the same name of every constructor
+    for nm in ("Translate", "Scale", "Rotate", "RotateX", "RotateY", "RotateZ"):
+        extend(f"{GEO}:{nm}.transform", "C12")
+
+    # ---- sort_tree (C05): the result's depth witness is the input's own (C05's precondition ghost depth5, over rows) read through the
+    # returned index array sigma (new id -> old row); C05's postcondition gives sigma(0) = root row, sigma(pid'[k]) = parent row of sigma(k)
+    def sorted_witness(E, v, o, ds):
+        from contracts.C05 import depth5
+
+        calls = [kw for nm, kw in E.call_log if nm == "sort_nodes_impl"]
+        if len(calls) != 1:
+            return None
+        sigma = calls[0]["__result__"][1]
+        return lambda k: depth5(z3.Select(sigma.arr, k))
+
+    extend(f"{UT}:sort_tree", "C05", inputs=("tree",), witness=sorted_witness)
+
+    # ---- to_subtree (C06): admissible removals do not list the root (otherwise nothing, or a forest, is left: outside WF).  The result's
+    # depth witness is the input's read through the mapping (new id -> old id) that to_sub_topology returned
+    def sub_witness(E, v, o, ds):
+        calls = [kw for nm, kw in E.call_log if nm == "to_sub_topology"]
+        if len(calls) != 1:
+            return None
+        mapping = calls[0]["__result__"][1]
+        return lambda k: ds[0](z3.Select(mapping.arr, k))
+
+    def root_not_removed(E, v, o):
+        rem = o["removals"]
+        j = z3.Int(fresh_name("j"))
+        return z3.ForAll([j], z3.Implies(z3.And(j >= 0, j < zint(rem.n)), z3.Select(rem.cols[0], j) != 0))
+
+    extend(f"{UT}:to_subtree", "C06", inputs=("swc_like",), witness=sub_witness, admissible=root_not_removed)
+
+    # ---- redirect_tree (C07).  sort=False: the new root stays at its old position new_root (the property's own exception), the depth
+    # witness is C07's ghost sdepth (distance to the new root);  sort=True: node 0 is the root and the witness is sdepth read through the
+    # row permutation of the final _sort_tree (ghost `presort`, recorded by C07's contract of _sort_tree)
+    def rr_witness(E, v, o, ds):
+        sdepth = E.spec_extra["sdepth"].f
+        if not v["sort"]:
+            return sdepth
+        if "presort" not in E.ghost:
+            return None
+        sg = E.ghost["presort"][1]
+        return lambda k: sdepth(z3.Select(sg, k))
+
+    def rr_root(E, v, o):
+        return None if v["sort"] else to_z3(o["new_root"], "int")
+
+    extend(f"{UT}:redirect_tree", "C07", inputs=("tree",), witness=rr_witness, root=rr_root)
+
+    # ---- cat_tree (C07): verified there for fixed small sizes (tree1 of 1-2 nodes, tree2 of 1-4 nodes); well-formedness of concrete-size
+    # tables is the finite formula, no witness is needed.  Both operands are inputs of the step: neither may be written
+    extend(f"{UT}:cat_tree", "C07", inputs=("tree1", "tree2"))
